@@ -373,6 +373,11 @@ func (prop) Generate(rng *core.Rand, tier string, emit0 func(string)) {
 	// ---- autosave, systematic: persistence on/off/default, rejected loads, unchanged config,
 	// forced reload, @id, null config, restarts
 	emit("as L1:d:-;L1:d:-;L1:df:-;L2:p:-;L3:n:-;L3:n:-;L4:px:-;L5:dy:-;L6:dj:-;L7:di:-;R;L7:di:-;L8:n:-;R;L9:d:-")
+	// @id tags: pushes that differ from the running document ONLY in ids (added, renamed, moved,
+	// removed), forced and not; the autosave file must follow each of them, and --resume must get it
+	emit("as L1:d:-;L1:di:-;L1:du:-;L1:dv:-;L1:d:-;L1:di:-;L1:di:-;U;L1:du:-;R;L1:dv:-")
+	emit("as L2:pi:-;L2:pu:-;U;L2:pi:-;L2:pif:-;L2:p:-;L3:pv:-;L3:pi:-;U")
+	emit("as L4:ni:-;L4:nu:-;L5:di:-;L5:dix:-;L5:du:K2;L5:dv:-;U")
 	emit("as L1:n:-;L2:nx:-;R;L3:n:-")
 	emit("as L1:px:-;L2:dy:-;L3:p:-;L4:dj:-;L3:p:-;L3:pf:-")
 	emit("as L1:dz:-;L2:d:-;L3:dz:-;L3:dz:-;R;L4:p:-")
@@ -410,8 +415,14 @@ func (prop) Generate(rng *core.Rand, tier string, emit0 func(string)) {
 			}
 			id := next
 			if len(loaded) > 0 && ras.Chance(1, 4) {
-				// push an earlier config again (same text when the flags agree)
-				evs = append(evs, loaded[ras.Intn(len(loaded))]+":-")
+				// push an earlier config again (same text when the flags agree), now and then with
+				// different @id tags only
+				h := loaded[ras.Intn(len(loaded))]
+				if ras.Chance(1, 2) {
+					h = strings.NewReplacer("i", "", "u", "", "v", "").Replace(h[strings.Index(h, ":"):])
+					h = loaded[0][:0] + strings.SplitN(loaded[ras.Intn(len(loaded))], ":", 2)[0] + h + ras.Pick([]string{"", "i", "u", "v"})
+				}
+				evs = append(evs, h+":-")
 				continue
 			}
 			next++
@@ -428,8 +439,8 @@ func (prop) Generate(rng *core.Rand, tier string, emit0 func(string)) {
 			case 2:
 				fl += "j"
 			}
-			if ras.Chance(1, 6) {
-				fl += "i"
+			if ras.Chance(1, 3) {
+				fl += ras.Pick([]string{"i", "u", "v"})
 			}
 			if ras.Chance(1, 25) && !strings.ContainsAny(fl, "xyji") {
 				fl += "z"
